@@ -36,7 +36,10 @@ def methodJson (m : Method) : Json :=
       | none => Json.null
       | some r => Json.mkObj [("count", jstr (toString r.count)),
                               ("op", jstr (if r.stride < 0 then "-" else "+")),
-                              ("stride_abs", jstr (toString r.stride.natAbs))])]
+                              ("stride_abs", jstr (toString r.stride.natAbs)),
+                              -- the emitted sum, evaluated left to right in the internal type:
+                              -- `self.base_address + ADDRESS (+|-) index as T * |stride|`
+                              ("order", jstr "bai")])]
 
 /-- Whether `read_all_registers` reads this accessor: registers whose access includes reading. -/
 def Method.readAllReads (m : Method) : Bool :=
